@@ -241,20 +241,27 @@ def sample (o : Oracle) (t : DTree) (i : Nat) : Option (List Branch) :=
     | .choice x => if x = t.walker then some bs else some ((bs[o.pick i bs.length % bs.length]?).toList)
     | _ => some ((bs[o.pick i bs.length % bs.length]?).toList)
 
-/-- the `while let Some(branch) = todo.pop()` loop with fuel -/
-def grow (o : Oracle) : Nat → DTree → List Branch → Option DTree
-  | _, t, [] => some t
-  | 0, _, _ :: _ => none
-  | f+1, t, todo =>
-    match todo.getLast?, todo.dropLast with
-    | some b, rest =>
-      match attach o t (some b.parent) b.edge b.game with
+/-- one turn of the `while let Some(branch) = todo.pop()` loop: `fork` the popped branch, `sample`
+    its children, push them (`none`: empty work list, or an assertion of the Rust code fails) -/
+def growStep (o : Oracle) (t : DTree) (todo : List Branch) : Option (DTree × List Branch) :=
+  match todo.getLast? with
+  | none => none
+  | some b =>
+    match attach o t (some b.parent) b.edge b.game with
+    | none => none
+    | some t' =>
+      match sample o t' t.size with
       | none => none
-      | some t' =>
-        match sample o t' t.size with
-        | none => none
-        | some kids => grow o f t' (rest ++ kids)
-    | none, _ => some t
+      | some kids => some (t', todo.dropLast ++ kids)
+
+/-- the loop with fuel (`none` when the fuel runs out with work left, or a step fails) -/
+def grow (o : Oracle) : Nat → DTree → List Branch → Option DTree
+  | 0, t, todo => if todo.isEmpty then some t else none
+  | f+1, t, todo =>
+    if todo.isEmpty then some t else
+    match growStep o t todo with
+    | none => none
+    | some s => grow o f s.1 s.2
 
 /-- `Blueprint::tree` for the deal `(h0, h1)`; payoffs are filled in by `settle` -/
 def build (o : Oracle) (walker h0 h1 fuel : Nat) : Option DTree :=
